@@ -230,6 +230,17 @@ impl Property for C20 {
                         cands.push(n.replacen("fi", "\u{fb01}", 1));
                     }
                 }
+                // valid names of every length up to 70 and a few much longer ones, alone and behind each known name
+                for n in (1..=70usize).chain([127, 128, 129, 255, 256, 257, 1000, 5000]) {
+                    cands.push("x".repeat(n));
+                    cands.push(format!("{}{}", "Ab-c_".repeat(n / 5 + 1), "Z".repeat(n % 5)));
+                }
+                for (_, n) in &named {
+                    for extra in ["x", "ID", "_SORT", "xxxxxxxxxxxxxxxxxxxxxxxxxxxxxxxx"] {
+                        cands.push(format!("{}{}", n, extra));
+                        cands.push(format!("{}{}", n.to_ascii_lowercase(), extra));
+                    }
+                }
                 for s in cands {
                     self.parse_one(acc, i, &s, &named);
                 }
@@ -347,7 +358,13 @@ impl C20 {
         acc.inc("strings_parsed");
         acc.distinct("nontrivial", mix(&[3, hash_bytes(s.as_bytes())]));
         let valid = !s.is_empty() && s.chars().all(|c| c.is_ascii_alphabetic() || c == '_' || c == '-');
-        let got = Tag::try_from(s);
+        let got = match crate::util::panics::catch(|| Tag::try_from(s)) {
+            Ok(g) => g,
+            Err(p) => {
+                acc.violation(i, None, format!("Tag::try_from({:?}) panics: {}", s, p.0), J::Null);
+                return;
+            }
+        };
         match (&got, valid) {
             (Ok(_), false) => acc.violation(i, None, format!("Tag::try_from({:?}) accepts a string the protocol cannot carry as a field name", s), J::Null),
             (Err(e), true) => acc.violation(i, None, format!("Tag::try_from({:?}) rejects a valid name: {}", s, e), J::Null),
